@@ -24,6 +24,10 @@ CREDS = [None, ("user", "pa:ss")]
 PROXY_HEADERS = [None, [("X-Route", "a"), ("Via", "p")], [("PROXY-AUTHORIZATION", "theirs"), ("x-caller", "proxy-default")]]
 REQ_HEADERS = [[], [("X-Caller", "1")], [("proxy-authorization", "mine"), ("X-ROUTE", "b")], [("Authorization", "secret"), ("x-caller", "2"), ("X-Caller", "3")]]
 ORIGINS = [("http", "a.example", None), ("http", "a.example", 8080), ("https", "a.example", None), ("https", "b.example", 8443)]
+# IP-literal hosts (the authority needs brackets for IPv6) - explored with the first/last credentials and header choices
+IP_ORIGINS = [("http", "[::1]", 8080), ("https", "[::1]", None), ("https", "[2001:db8::2]", 8443), ("https", "127.0.0.1", None)]
+# request extensions that address the ORIGIN exchange and must not redirect a proxy hop
+EXTS = [None, {"sni_hostname": "sni.example"}, {"target": b"/t/alt?y=2"}]
 BODIES = [None, b"caller-body"]
 CONNECT_REPLIES = [("interim+200", 200, True), ("200", 200, False), ("204", 204, False), ("299", 299, False), ("300", 300, False),
                    ("302", 302, False), ("403", 403, False), ("407", 407, False), ("500", 500, False), ("502", 502, False)]
@@ -34,7 +38,7 @@ SOCKS_REPLY = [bytes([5, c, 0, 1, 127, 0, 0, 1, 4, 56]) for c in (0, 1, 2, 3, 4,
 DEFAULT = {"http": 80, "https": 443}
 
 
-def cases(tier):
+def _base_cases(tier):
     for kind in ("http", "https"):
         for cred, ph, origin, rh, body in itertools.product(CREDS, PROXY_HEADERS, ORIGINS, range(len(REQ_HEADERS)), BODIES):
             if origin[0] == "http":
@@ -42,6 +46,12 @@ def cases(tier):
             else:
                 for rep in CONNECT_REPLIES:
                     yield (kind, cred, ph, origin, rh, body, rep[0])
+        for cred, ph, origin, rh, body in itertools.product(CREDS, (PROXY_HEADERS[0], PROXY_HEADERS[1]), IP_ORIGINS, (0, 2), BODIES):
+            if origin[0] == "http":
+                yield (kind, cred, ph, origin, rh, body, None)
+            else:
+                for rep in ("200", "407"):
+                    yield (kind, cred, ph, origin, rh, body, rep)
     for kind in ("socks5", "socks5h"):
         for cred, origin, rh, body in itertools.product(CREDS, ORIGINS, (0, 3), BODIES):
             for mr in SOCKS_METHOD:
@@ -50,12 +60,30 @@ def cases(tier):
                         if tier == "quick" and cr not in (0, 1, 5, 9) and (origin != ORIGINS[0] or body is not None):
                             continue
                         yield (kind, cred, None, origin, rh, body, (mr.hex(), ar.hex(), cr))
+        for cred, origin in itertools.product(CREDS, IP_ORIGINS):
+            yield (kind, cred, None, origin, 0, None, ("0502" if cred else "0500", "0100", 0))
+
+
+def cases(tier):
+    for c in _base_cases(tier):
+        yield c
+        # the extension dimension: every case whose proxy reply lets the exchange proceed, and one refusal per kind
+        kind, cred, ph, origin, rh, body, reply = c
+        proceeds = reply is None or reply in ("200", "interim+200") or (isinstance(reply, tuple) and reply[2] == 0 and reply[1] == "0100"
+                                                                        and reply[0] == ("0502" if cred else "0500"))
+        if proceeds or reply == "407":
+            for xi in range(1, len(EXTS)):
+                yield c + (xi,)
 
 
 def run_case(case, variant):
-    kind, cred, ph, origin, rh, body, reply = case
+    kind, cred, ph, origin, rh, body, reply = case[:7]
+    ext = dict(EXTS[case[7]]) if len(case) > 7 else {}
     scheme, host, port = origin
     eff_port = port or DEFAULT[scheme]
+    bare = host[1:-1] if host.startswith("[") else host      # the host without IPv6 brackets
+    path = ext.get("target", b"/t/tok?x=1")                  # the origin-form target the origin must see
+    want_body = b"<alt>" if "target" in ext else b"<tok>"
     req_headers = REQ_HEADERS[rh]
     origin_srv = {}
 
@@ -96,7 +124,7 @@ def run_case(case, variant):
     if variant == "sync":
         def prog():
             try:
-                r = pool.request(method, url, headers=list(req_headers), content=body)
+                r = pool.request(method, url, headers=list(req_headers), content=body, extensions=dict(ext))
                 result.append(("ok", r.status, r.content))
             except Exception as e:
                 result.append(("exc", e))
@@ -106,7 +134,7 @@ def run_case(case, variant):
     else:
         async def aprog():
             try:
-                r = await pool.request(method, url, headers=list(req_headers), content=body)
+                r = await pool.request(method, url, headers=list(req_headers), content=body, extensions=dict(ext))
                 result.append(("ok", r.status, r.content))
             except Exception as e:
                 result.append(("exc", e))
@@ -117,7 +145,7 @@ def run_case(case, variant):
     out = []
 
     def bad(k, msg, **sigx):
-        out.append({"oracle": "C11." + k, "message": f"{msg} | variant={variant} proxy={kind} cred={cred} proxy_headers={ph} origin={origin} req_headers={req_headers} body={body} reply={reply}",
+        out.append({"oracle": "C11." + k, "message": f"{msg} | variant={variant} proxy={kind} cred={cred} proxy_headers={ph} origin={origin} req_headers={req_headers} body={body} reply={reply} extensions={ext}",
                     "signature": dict({"harness": "proxyhop", "kind": k, "proxy": kind}, **sigx), "case": {"case": repr(case), "variant": variant}})
 
     if res[0] != "ok":
@@ -141,7 +169,7 @@ def run_case(case, variant):
         pc = conns[0]
         if scheme == "http":
             # ---- forwarding
-            if r[0] != "ok" or r[2] != b"<tok>":
+            if r[0] != "ok" or r[2] != want_body:
                 bad("forward-failed", f"forwarded request gave {r[0]}:{exc_class(r[1]) if r[0] == 'exc' else r[1:]}")
                 return out
             fr = pc.fwd.parser.requests if pc.fwd is not None else []
@@ -149,7 +177,7 @@ def run_case(case, variant):
                 bad("forward-count", f"proxy parsed {len(fr)} forwarded requests")
                 return out
             q = fr[0]
-            want_target = url.encode()
+            want_target = (f"{scheme}://{host}" + (f":{port}" if port else "")).encode() + path
             if q.target != want_target:
                 bad("forward-target", f"request line target {q.target!r} expected absolute URL {want_target!r}")
             merged = [(k, v) for k, v in proxy_side if k.lower() not in caller_names] + rhb
@@ -188,7 +216,7 @@ def run_case(case, variant):
         if pre.count(b"\r\n\r\n") != 1 or not pre.endswith(b"\r\n\r\n"):
             bad("pre-tunnel-bytes", f"bytes other than one CONNECT head went to the proxy before its reply: {pre[:120]!r}")
         if ok2xx:
-            if r[0] != "ok" or r[2] != b"<tok>":
+            if r[0] != "ok" or r[2] != want_body:
                 bad("tunnel-failed", f"2xx CONNECT reply but the request gave {r[0]}:{exc_class(r[1]) if r[0] == 'exc' else r[1:]}", status=rep[1])
                 return out
             p2 = H1RequestParser()
@@ -197,7 +225,7 @@ def run_case(case, variant):
                 bad("tunnel-parse", f"in-tunnel bytes do not parse as one request: {p2.errors} {bytes(pc.in_tunnel)[:80]!r}")
                 return out
             q = p2.requests[0]
-            if q.target != b"/t/tok?x=1":
+            if q.target != path:
                 bad("tunnel-target", f"in-tunnel target {q.target!r}")
             inner_h = [(k, v) for k, v in q.headers if k.lower() not in (b"host", b"content-length")]
             if inner_h != rhb:
@@ -242,8 +270,15 @@ def run_case(case, variant):
             bad("socks-request", "no CONNECT request reached the proxy")
         else:
             cmd, atyp, addr, p = sc.request
-            if cmd != 1 or atyp != 3 or addr != host.encode() or p != eff_port:
-                bad("socks-request", f"request cmd={cmd} atyp={atyp} addr={addr!r} port={p}, expected CONNECT domain {host}:{eff_port}")
+            import ipaddress
+            try:
+                ip = ipaddress.ip_address(bare)
+            except ValueError:
+                ip = None
+            addr_ok = (atyp == 3 and addr == bare.encode()) if ip is None else (
+                (atyp == (4 if ip.version == 6 else 1) and addr == ip.packed) or (atyp == 3 and addr == bare.encode()))
+            if cmd != 1 or not addr_ok or p != eff_port:
+                bad("socks-request", f"request cmd={cmd} atyp={atyp} addr={addr!r} port={p}, expected CONNECT to {bare} port {eff_port}")
     elif sc.request is not None:
         bad("socks-request-after-failure", "CONNECT request sent although method/auth negotiation failed")
     if sc.errors:
@@ -251,12 +286,13 @@ def run_case(case, variant):
     if sc.early_bytes:
         bad("socks-early-bytes", f"{sc.early_bytes} bytes sent before the proxy answered the previous step")
     if success:
-        if r[0] != "ok" or r[2] != b"<tok>":
+        if r[0] != "ok" or r[2] != want_body:
             bad("socks-failed", f"negotiation succeeded but the request gave {r[0]}:{exc_class(r[1]) if r[0] == 'exc' else r[1:]}", reply=cr)
         if scheme == "http":
             p2 = H1RequestParser()
             p2.feed(bytes(sc.in_tunnel))
-            if len(p2.requests) != 1 or [(k, v) for k, v in p2.requests[0].headers if k.lower() not in (b"host", b"content-length")] != rhb:
+            if len(p2.requests) != 1 or [(k, v) for k, v in p2.requests[0].headers if k.lower() not in (b"host", b"content-length")] != rhb \
+                    or p2.requests[0].target != path:
                 bad("socks-tunnel-request", f"in-tunnel request differs from the caller's: {bytes(sc.in_tunnel)[:100]!r}")
     else:
         if r[0] != "exc":
@@ -276,7 +312,8 @@ def _job(chunk):
             n += 1
             v = run_case(case, variant)
             out += v[:3]
-            classes.add((case[0], bool(case[1]), case[2] is not None and case[2][0][0], case[3][0], case[4], case[5] is not None, str(case[6]), bool(v)))
+            classes.add((case[0], bool(case[1]), case[2] is not None and case[2][0][0], case[3][0], case[3][1][0] in "[1", case[4], case[5] is not None, str(case[6]),
+                         case[7] if len(case) > 7 else 0, bool(v)))
     return n, out, classes
 
 
@@ -298,7 +335,8 @@ def check(tier="quick", seed=0, workers=None, only=None):
             classes |= cl
     cov = {"evaluations": total, "distinct_nontrivial": len(classes), "exhaustive": True,
            "rule": ("full product proxy kind x credentials x proxy headers (incl. case-insensitive collisions) x origin x request headers x body x proxy reply "
-                    "(10 CONNECT replies; SOCKS method x auth x 11 connect replies), sync and async; distinct class = (kind, creds?, proxy headers, scheme, request headers, body?, reply, violated?)"),
+                    "(10 CONNECT replies; SOCKS method x auth x 11 connect replies), sync and async; IP-literal origins (IPv6 with and without port, IPv4); "
+                    "every case whose reply lets the exchange proceed (and one refusal) again with the sni_hostname and the target request extension; distinct class = (kind, creds?, proxy headers, scheme, request headers, body?, reply, violated?)"),
            "samples": [{"case": repr(c)[:300]} for c in allc[:: max(1, len(allc) // 5)][:5]], "cases": len(allc)}
     return {"level": "exploration", "coverage": cov, "violations": viols,
             "assumptions": ["the proxy peers record every byte before and after the tunnel boundary; non-2xx CONNECT replies carry Content-Length: 0"]}
